@@ -2,12 +2,13 @@
 # usage: tools/matrix.sh <outdir> <patch>...  : for each patch: repo suite result, then every quick check's exit code
 OUT="$1"; shift
 mkdir -p "$OUT"
+EVBAK=$(mktemp -d /tmp/evbak.XXXXXX); cp -a /verif/evidence/. "$EVBAK"/
 for P in "$@"; do
   name=$(basename $(dirname "$P"))-$(basename "$P" .diff); case "$P" in */mutants/*) name=$(basename "$P" .diff);; */seeded/*) name=$(basename $(dirname "$P"));; esac
   cd /repo || exit 2
   git diff --quiet || { echo "/repo dirty" >&2; exit 2; }
   if ! git apply "$P" 2>/dev/null; then echo "$name: PATCH-DOES-NOT-APPLY" >> "$OUT/matrix.txt"; continue; fi
-  suite=$(cargo test --offline 2>&1 | grep -cE "^test result: FAILED|^error")
+  suite=$(timeout 600 cargo test --offline 2>&1 | grep -cE "^test result: FAILED|^error")
   line="$name: suite_failures=$suite"
   for id in C01 C02 C03 C04 C05 C06 C07 C08 C09 C10 C11 C12 C13 C14 C15 C16 C17; do
     /verif/check $id --tier quick > "$OUT/$name.$id.log" 2>&1
@@ -17,3 +18,4 @@ for P in "$@"; do
   echo "$line" >> "$OUT/matrix.txt"
   git -C /repo checkout -- .
 done
+rm -rf /verif/evidence; mkdir -p /verif/evidence; cp -a "$EVBAK"/. /verif/evidence/; rm -rf "$EVBAK"
